@@ -16,7 +16,14 @@ Fixpoint emb (t : Lang.tm) : FreeVars.tm :=
   end.
 
 Definition emb_field (d : fdef) : field := Fld [] (option_map emb (fbody d)).
-Definition emb_lit (l : literal) : FreeVars.tm := RecRec (map (fun kd => (fst kd, emb_field (snd kd))) l) [] [].
+
+(* the literal as the parser builds it: statically named fields, and dynamically named fields
+   whose name is a string with an interpolated outer variable *)
+Definition emb_stat (l : literal) : list (N * field) :=
+  map (fun kd => (fst kd, emb_field (snd kd))) (filter (fun kd => negb (fdyn (snd kd))) l).
+Definition emb_dyn (l : literal) : list (FreeVars.tm * field) :=
+  map (fun kd => (Chunks [Some (FreeVars.Var (fst kd + 1000)%N)], emb_field (snd kd))) (filter (fun kd => fdyn (snd kd)) l).
+Definition emb_lit (l : literal) : FreeVars.tm := RecRec (emb_stat l) [] (emb_dyn l).
 
 Lemma vars_collect : forall t x, In x (vars t) <-> In x (collect false (emb t)).
 Proof.
@@ -34,25 +41,50 @@ Proof. intros t x. rewrite vars_collect. apply collect_sound_complete. Qed.
 
 (* the mechanism configured with the model of free_vars.rs *)
 Definition cfg_partA : cfg :=
-  {| c_an := fun t => collect false (emb t); c_unknown := false; c_revert := RevFresh; c_patch := PAssert |}.
+  {| c_an := fun t => collect false (emb t); c_unknown := false; c_revert := RevFresh; c_patch := PAssert; c_wrap_dyn := false |}.
 
 Theorem cfg_partA_faithful : faithful cfg_partA.
 Proof. repeat split; try reflexivity; intros H; apply vars_collect; exact H. Qed.
 
-(* the table [deps_stat] of the literal seen as a term of part A has, for every defined field, the
-   members of the filter the mechanism allocates its thunk with *)
-Theorem literal_deps_agree : forall (l : literal) k d t x,
-  In (k, d) l -> fbody d = Some t ->
-  exists ds, In (k, ds) (deps_stat false (map (fun kd => (fst kd, emb_field (snd kd))) l) []) /\
-             (In x ds <-> In x (filter (fun y => Lang.mem y (lit_names l)) (c_an cfg_partA t))).
+Lemma rec_fields_scope : forall l, rec_fields (emb_stat l) [] = lit_scope l.
 Proof.
-  intros l k d t x Hin Hb.
-  exists (inter (collect_field false (emb_field d)) (rec_fields (map (fun kd => (fst kd, emb_field (snd kd))) l) [])).
-  split.
+  intros l. unfold rec_fields, emb_stat, lit_scope. cbn [map]. rewrite app_nil_r, map_map. reflexivity.
+Qed.
+
+Lemma field_deps_agree : forall l d t x,
+  fbody d = Some t ->
+  (In x (inter (collect_field false (emb_field d)) (rec_fields (emb_stat l) []))
+   <-> In x (filter (fun y => Lang.mem y (lit_scope l)) (c_an cfg_partA t))).
+Proof.
+  intros l d t x Hb. rewrite In_inter, filter_In, rec_fields_scope. unfold emb_field. rewrite Hb.
+  cbn [option_map collect_field flat_map app c_an cfg_partA].
+  rewrite <- (FreeVarsProofs.mem_In x (lit_scope l)). unfold FreeVars.mem, Lang.mem. reflexivity.
+Qed.
+
+(* the tables [deps_stat] / [deps_dyn] of the literal seen as a term of part A have, for every
+   defined field, the members of the filter the mechanism allocates its thunk with *)
+Theorem literal_deps_agree_stat : forall (l : literal) k d t x,
+  In (k, d) l -> fdyn d = false -> fbody d = Some t ->
+  exists ds, In (k, ds) (deps_stat false (emb_stat l) []) /\
+             (In x ds <-> In x (filter (fun y => Lang.mem y (lit_scope l)) (c_an cfg_partA t))).
+Proof.
+  intros l k d t x Hin Hdyn Hb.
+  exists (inter (collect_field false (emb_field d)) (rec_fields (emb_stat l) [])). split.
   - unfold deps_stat. cbn [map app]. apply in_map_iff. exists (k, emb_field d). split; [reflexivity|].
-    apply in_map_iff. exists (k, d). split; [reflexivity | exact Hin].
-  - rewrite In_inter, filter_In. unfold emb_field. rewrite Hb. cbn [option_map collect_field flat_map app c_an cfg_partA].
-    unfold rec_fields. cbn [map]. rewrite app_nil_r, map_map. cbn [fst].
-    change (map (fun x0 : N * fdef => fst x0) l) with (lit_names l).
-    rewrite <- (FreeVarsProofs.mem_In x (lit_names l)). unfold FreeVars.mem, Lang.mem. reflexivity.
+    unfold emb_stat. apply in_map_iff. exists (k, d). split; [reflexivity|]. apply filter_In. split; [exact Hin|].
+    cbn [snd]. rewrite Hdyn. reflexivity.
+  - apply field_deps_agree. exact Hb.
+Qed.
+
+Theorem literal_deps_agree_dyn : forall (l : literal) k d t x,
+  In (k, d) l -> fdyn d = true -> fbody d = Some t ->
+  exists ds, In ds (deps_dyn false (emb_stat l) [] (emb_dyn l)) /\
+             (In x ds <-> In x (filter (fun y => Lang.mem y (lit_scope l)) (c_an cfg_partA t))).
+Proof.
+  intros l k d t x Hin Hdyn Hb.
+  exists (inter (collect_field false (emb_field d)) (rec_fields (emb_stat l) [])). split.
+  - unfold deps_dyn. apply in_map_iff.
+    exists (Chunks [Some (FreeVars.Var (k + 1000)%N)], emb_field d). split; [reflexivity|].
+    unfold emb_dyn. apply in_map_iff. exists (k, d). split; [reflexivity|]. apply filter_In. split; [exact Hin | exact Hdyn].
+  - apply field_deps_agree. exact Hb.
 Qed.
